@@ -301,3 +301,38 @@ def anchor_value(tick: int, us: int) -> bool:
     ev = S.AnchorEvent.from_parsed_data(S.AnchorEvent.ParsedData(tick=tick, microseconds=us))
     ts = ev.timestamp
     return done(ev.tick == tick and (ts.days * 86400 + ts.seconds) * 10**6 + ts.microseconds == us)
+
+
+# ---------------------------------------------------------------------------------------------
+# C12: monotonicity over tempo maps built by the real builder, axiomatised monotone clock
+# ---------------------------------------------------------------------------------------------
+RAW_BPMS = ["120000", "60500", "200250", "87125", "333000", "45000"]
+
+
+def monotone_pair(t1: int, t2: int, t3: int, t4: int, t5: int, a: int, b: int,
+                  p0: int, p1: int, p2: int, p3: int, p4: int, p5: int, p6: int) -> bool:
+    """
+    pre: _inc(K, [t1, t2, t3, t4, t5])
+    pre: 0 <= a <= b
+    post: _
+    """
+    import chartparse.track as T
+    ticks = [0, t1, t2, t3, t4, t5][:K]
+    datas = [BPMEvent.ParsedData(tick=ticks[i], raw_bpm=RAW_BPMS[i]) for i in range(K)]
+    clock = Clock("monotone", pool=[p0, p1, p2, p3, p4, p5, p6][:K + 1])
+    with H.abstract_time(clock):
+        be = T.build_events_from_data(BPMEvent, datas, 192)
+        ta, ia = be.timestamp_at_tick(a)
+        tb, ib = be.timestamp_at_tick(b)
+    if not clock.assume_ok:
+        return True     # pool values outside the clock axioms (K2): not a real clock
+    ok = ta <= tb and ia <= ib and ta.us >= 0
+    if a == b:
+        ok = ok and ta == tb and ia == ib
+    if a == 0:
+        ok = ok and ta.us == 0
+    for i in range(K):
+        ok = ok and be[i].tick == ticks[i]
+        if i > 0:
+            ok = ok and be[i - 1].timestamp <= be[i].timestamp
+    return done(ok)
